@@ -730,7 +730,26 @@ impl App {
         };
 
         // get copy of transactions to execute from mempool
-        let pending_txs = self.mempool.builder_queue().await;
+        let mempool_txs = self.mempool.builder_queue().await;
+
+        // Validators construct the checked transactions of a proposed block against the state at
+        // the start of the block, which re-runs every action's mutable checks. A transaction that
+        // has been waiting in the mempool can fail these by now (and pass again later in this very
+        // block, once another transaction has executed). It must not be proposed, as the whole
+        // proposal would be rejected; it stays in the mempool for a later block.
+        let mut pending_txs = Vec::with_capacity(mempool_txs.len());
+        for tx in mempool_txs {
+            if let Err(error) = tx.run_mutable_checks(&self.state).await {
+                debug!(
+                    tx_id = %tx.id(),
+                    %error,
+                    "excluding transaction: fails mutable checks against the state at the start of \
+                     the block"
+                );
+                continue;
+            }
+            pending_txs.push(tx);
+        }
 
         let mut unused_count = pending_txs.len();
         for tx in pending_txs {
